@@ -97,8 +97,11 @@ impl LocalSpan {
     {
         #[cfg(feature = "enable")]
         if let Some(LocalSpanInner { stack, span_handle }) = &self.inner {
+            // Evaluate the closure before borrowing the span stack: it may itself use the
+            // tracing API of this thread (e.g. call a `#[trace]` function or log).
+            let properties = properties();
             let span_stack = &mut *stack.borrow_mut();
-            span_stack.with_properties(span_handle, properties);
+            span_stack.with_properties(span_handle, || properties);
         }
 
         self
@@ -150,8 +153,14 @@ impl LocalSpan {
         {
             LOCAL_SPAN_STACK
                 .try_with(|s| {
-                    let span_stack = &mut s.borrow_mut();
-                    span_stack.add_properties(properties);
+                    // Evaluate the closure outside of the borrow (see `with_properties`), and only
+                    // if the properties are going to be recorded.
+                    let is_recording = s.borrow_mut().is_recording();
+                    if is_recording {
+                        let properties = properties();
+                        let span_stack = &mut s.borrow_mut();
+                        span_stack.add_properties(|| properties);
+                    }
                     Some(())
                 })
                 .ok();
